@@ -87,7 +87,8 @@ def canon(v):
         t = v.detach().cpu().contiguous()
         if t.numel() <= 4:
             return ["T", str(t.dtype), list(t.shape), [repr(x) for x in t.flatten().tolist()]]
-        return ["T", str(t.dtype), list(t.shape), hashlib.sha1(t.numpy().tobytes()).hexdigest()[:16]]
+        raw = t.view(torch.int16) if t.dtype == torch.bfloat16 else t     # numpy has no bfloat16: hash the bit pattern
+        return ["T", str(t.dtype), list(t.shape), hashlib.sha1(raw.numpy().tobytes()).hexdigest()[:16]]
     if isinstance(v, Image.Image):
         return ["P", v.mode, list(v.size), hashlib.sha1(v.tobytes()).hexdigest()[:16]]
     if isinstance(v, np.ndarray):
@@ -107,21 +108,125 @@ def canon(v):
     return "<" + type(v).__name__ + ">"
 
 
-def make_input(kind, S, seed):
+TENSOR_DTYPES = ["float32", "float64", "float16", "bfloat16", "uint8", "int64"]
+PIL_MODES = ["RGB", "L", "RGBA"]
+# classes that (by their code / documented `inplace` default) write into the tensor they are HANDED: KDImageNorm and
+# KDImageRangeNorm (inplace=True is the documented default), KDThreshold / KDRandomThreshold (x[x < t] = 0),
+# KDRandomErasing (x[:, rect] = value), PatchwiseRandomRotation (x[:, i] = rotate(x[:, i])), KDMagnitudeJitter(inplace=True),
+# KDColumnwiseNorm(inplace=True), KDBucketize.
+# A composition containing one of them may change its input; every other composition must leave its input untouched.
+INPLACE_ON_INPUT = {"KDImageNorm", "KDImageRangeNorm", "KDThreshold", "KDRandomThreshold", "KDRandomErasing",
+                    "PatchwiseRandomRotation", "KDMagnitudeJitter", "KDColumnwiseNorm", "KDBucketize"}
+
+
+def _cast(t, dtype):
+    import torch
+    if dtype in (None, "float32"):
+        return t
+    if dtype in ("uint8", "int64"):
+        return (t * 255).to(getattr(torch, dtype))
+    return t.to(getattr(torch, dtype))
+
+
+def make_input(kind, S, seed, dtype=None):
+    """dtype: one of TENSOR_DTYPES for tensor kinds, one of PIL_MODES for kind "pil" (None = float32 / RGB)"""
     import torch
     from torchvision.transforms.functional import to_pil_image
     g = torch.Generator().manual_seed(seed)
     if kind == "img":
-        return torch.rand(3, S, S, generator=g)
+        return _cast(torch.rand(3, S, S, generator=g), dtype)
     if kind == "pil":
-        return to_pil_image(torch.rand(3, S, S, generator=g))
+        img = to_pil_image(torch.rand(3, S, S, generator=g))
+        return img if dtype in (None, "RGB") else img.convert(dtype)
     if kind == "patches":
-        return torch.rand(3, 4, S // 2, S // 2, generator=g)
+        return _cast(torch.rand(3, 4, S // 2, S // 2, generator=g), dtype)
     if kind == "spec":
-        return torch.rand(1, 12, 10, generator=g)
+        return _cast(torch.rand(1, 12, 10, generator=g), dtype)
     if kind == "semseg":
-        return (torch.rand(3, S, S, generator=g), torch.randint(0, 4, (S, S), generator=g))
+        return (_cast(torch.rand(3, S, S, generator=g), dtype), torch.randint(0, 4, (S, S), generator=g))
     raise ValueError(kind)
+
+
+def _byte_range(v):
+    """(lo, hi) address range of the memory block that backs a tensor / ndarray (whole storage: views count)"""
+    import numpy as np
+    import torch
+    if torch.is_tensor(v):
+        try:
+            st = v.untyped_storage()
+            return (st.data_ptr(), st.data_ptr() + st.nbytes()) if st.nbytes() > 0 else None
+        except Exception:  # noqa
+            return None
+    if isinstance(v, np.ndarray):
+        base = v
+        while isinstance(getattr(base, "base", None), np.ndarray):
+            base = base.base
+        lo = base.__array_interface__["data"][0]
+        return (lo, lo + base.nbytes) if base.nbytes > 0 else None
+    return None
+
+
+def bulk_leaves(v, out=None, depth=0):
+    """tensors / arrays inside a returned value or a context (lists, tuples, dicts)"""
+    import numpy as np
+    import torch
+    out = [] if out is None else out
+    if torch.is_tensor(v) or isinstance(v, np.ndarray):
+        out.append(v)
+    elif isinstance(v, (list, tuple)) and depth < 4:
+        for e in v:
+            bulk_leaves(e, out, depth + 1)
+    elif isinstance(v, dict) and depth < 4:
+        for e in v.values():
+            bulk_leaves(e, out, depth + 1)
+    return out
+
+
+def internal_buffers(root):
+    """address ranges of every tensor / ndarray reachable through the attributes of the objects of a live transform
+    tree (attributes, lists, dicts, helper objects such as magnitude samplers; generators excluded)"""
+    import numpy as np
+    import torch
+    ranges = []
+    seen = set()
+
+    def scan(v, where, depth):
+        if id(v) in seen or depth > 4:
+            return
+        if torch.is_tensor(v) or isinstance(v, np.ndarray):
+            r = _byte_range(v)
+            if r is not None:
+                ranges.append((r, where))
+            return
+        if isinstance(v, (str, bytes, int, float, bool, type(None), Spy, np.random.Generator, np.generic)):
+            return
+        seen.add(id(v))
+        if isinstance(v, (list, tuple)):
+            for i, e in enumerate(v):
+                scan(e, f"{where}[{i}]", depth + 1)
+        elif isinstance(v, dict):
+            for k, e in v.items():
+                scan(e, f"{where}[{k!r}]", depth + 1)
+        elif hasattr(v, "__dict__") and not isinstance(v, type):
+            for k, e in list(vars(v).items()):
+                scan(e, f"{where}.{k}", depth + (0 if isinstance(v, _node_base()) else 1))
+
+    scan(root, type(root).__name__, 0)
+    return ranges
+
+
+def aliases_internal(value, root):
+    """names of internal attributes whose memory overlaps a tensor / array of `value`"""
+    bufs = internal_buffers(root)
+    hits = []
+    for leaf in bulk_leaves(value):
+        r = _byte_range(leaf)
+        if r is None:
+            continue
+        for (lo, hi), where in bufs:
+            if r[0] < hi and lo < r[1]:
+                hits.append(where)
+    return sorted(set(hits))
 
 
 def clone_input(x):
